@@ -33,6 +33,12 @@ def checkValues : Raw → Except Err (List Int)
   | .unsupported => .error .type
   | .twoDim => .error .value
 
+/-- A list / array of floats (given exactly, as rationals): whole numbers are taken as the integers
+they are, one non-integral value makes the whole input fractional -- the exact `casted == data`
+comparison of pandas' integer-index constructor, with no tolerance. -/
+def rawOfFloats (qs : List Rat) : Raw :=
+  if qs.all (fun q => q.den == 1) then .ints (qs.map (·.num)) else .fractional
+
 structure FH where
   vals : List Int
   rel : Bool
